@@ -189,3 +189,20 @@ PROPS['C10'] = dict(
     technique='reference-model monitor over tie/limit-biased seeded inputs + enumerated increment table; release + debug-assertion builds',
     design_ref='DESIGN.md section 4, C10',
 )
+
+PROPS['C06'] = dict(
+    sub='c06',
+    prep=['synth'],
+    quick=[S('rel'), S('dbg', 'zone_stride=4')],
+    thorough=[S('rel'), S('dbg')],
+    rule='same zone corpus as C03. Per zone, seeded zoned datetimes: within +-2 days of transitions (with ns 0/1/.5s/999999999), starts aimed so that a step of 1/7/28/30/31/365 days lands inside a gap or fold, month ends / leap days / years around 0, both range limits; '
+         'operands: +-1d, +-24/23/25 h, weeks, months, years, mixed calendar+time spans of one sign, limit-biased spans, signed and unsigned durations; through checked/saturating add and sub and the &Zoned +/- operators, '
+         'plus tomorrow, yesterday, first/last_of_month, first/last_of_year, start_of_day, end_of_day and with().{day,hour,minute,month,year}. Oracle = civil model (months first, clamping) -> compatible resolution by the corroborated tz model -> exact ns add. '
+         'Every produced Zoned also passes the C13 consistency invariant. distinct_nontrivial = distinct (zone, instant, operand) triples (every second one)',
+    floors={'quick': {'zones': 1000, 'evaluations': 10000000, 'zoned_values_checked_for_consistency': 5000000}, 'thorough': {'zones': 1000, 'evaluations': 200000000}},
+    assumptions=TZ_ASSUME + ['end_of_day is judged against its documentation (last nanosecond of the civil day; earlier instant in a gap, later in a fold)', 'zones subject to known finding D10 are judged on their explicit-transition part only'],
+    level_text='Reference-model monitoring: millions of zoned additions/subtractions and calendar helpers per run, concentrated on DST days of ~1700 zones, are compared with the composition civil-model -> tz-model(compatible) -> exact nanoseconds; results must keep the zone and be internally consistent.',
+    level_note='Trusted base: arith.rs, cal.rs, tzref.rs (corroborated). Operand/instant product is sampled.',
+    technique='reference-model monitor (composition of civil and tz models) + invariant monitor on every produced value; release + debug-assertion builds',
+    design_ref='DESIGN.md section 4, C06',
+)
